@@ -96,3 +96,33 @@ def renderIsoX (sep : Char) (f : TimeFmt) (t : DT) (off : Off) : List Char :=
   isoDate t ++ [sep] ++ f.render t ++ off.render
 
 end PT
+
+namespace PT
+
+/-- the compact all-digit renderings -/
+inductive CompactFmt where
+  | tHMS       -- YYYYMMDDTHHMMSS
+  | nosepHMS   -- YYYYMMDDHHMMSS
+  | tHM        -- YYYYMMDDTHHMM
+  | date       -- YYYYMMDD
+  deriving Repr, DecidableEq
+
+def compactDate (t : DT) : List Char := pad4 t.y.toNat ++ pad2 t.m.toNat ++ pad2 t.d.toNat
+
+def renderCompact (f : CompactFmt) (t : DT) : List Char :=
+  match f with
+  | .tHMS => compactDate t ++ ['T'] ++ (pad2 t.hh.toNat ++ pad2 t.mm.toNat ++ pad2 t.ss.toNat)
+  | .nosepHMS => compactDate t ++ (pad2 t.hh.toNat ++ pad2 t.mm.toNat ++ pad2 t.ss.toNat)
+  | .tHM => compactDate t ++ ['T'] ++ (pad2 t.hh.toNat ++ pad2 t.mm.toNat)
+  | .date => compactDate t
+
+/-- what parsing must return; fields the text does not name come from the default
+    (`HHMMSS` after `T` names the microsecond as 0, the 14-digit form does not) -/
+def CompactFmt.expect (f : CompactFmt) (t dflt : DT) : DT :=
+  match f with
+  | .tHMS => { t with us := 0 }
+  | .nosepHMS => { t with us := dflt.us }
+  | .tHM => { t with ss := dflt.ss, us := dflt.us }
+  | .date => { t with hh := dflt.hh, mm := dflt.mm, ss := dflt.ss, us := dflt.us }
+
+end PT
